@@ -421,6 +421,16 @@ let run_literal (x : sexp) : string =
       Printf.sprintf "lint=%b value=%s" (Literal.lint l t) (string_of_z v)
   | _ -> failwith "literal"
 
+(* ---- C03: linkage ---------------------------------------------------------------- *)
+let run_linkage (x : sexp) : string =
+  match x with
+  | A f when String.length f = 5 ->
+      let b i c = f.[i] = c in
+      let (p, e, m, fw, o) = (b 0 'p', b 1 'e', b 2 'm', b 3 'f', b 4 'o') in
+      (match Linkage.linkage_of p e m fw o with Linkage.LExternal -> "external" | Linkage.LPrivate -> "private" | Linkage.LInternal -> "internal") ^ " " ^
+      (match Linkage.callconv_of p e m fw o with Linkage.CC_C -> "ccc" | Linkage.CC_Fast -> "fastcc")
+  | _ -> failwith "linkage"
+
 let dispatch (stream : string) (x : sexp) : string =
   match stream with
   | "labels" -> run_labels x
@@ -431,6 +441,7 @@ let dispatch (stream : string) (x : sexp) : string =
   | "containers" -> run_containers x
   | "layout" -> run_layout x
   | "literal" -> run_literal x
+  | "linkage" -> run_linkage x
   | "tables" -> run_tables (match x with A n -> int_of_string n | _ -> 64)
   | "syntax" -> run_syntax true x
   | "syntax-pinned" -> run_syntax false x
